@@ -10,20 +10,20 @@ CLAIMED = {
  "C02": ("all schedules of 2-3 concurrent callers through Addr/OwningAddr/Caller/WeakCaller plus a resolver (halt/await/join), crossed with every termination cause at every position (client stop, last drop, start failure/panic, handler panic, stopped panic, timeout failure, cancellation before the j-th poll); own-response, resolves, and verdict clauses on every execution", ""),
  "C04": ("all schedules of stop requests through every entry point racing with submissions and awaiters; drain barrier, post-stop barrier, announce-after-stopped and verdict clauses evaluated on every complete execution", ""),
  "C07": ("all schedules of programs with 1-2 restart requests (Addr::restart, Context::restart) at every position among sends/calls, three strategies, start failure on restart, timers registered in started() and in handlers on the virtual clock; incarnation-bounds, strategy semantics, state carried/reset and stale-timer clauses on every execution", ""),
- "C08": ("all schedules (lock acquisitions are scheduling points) of registry histories of 1-3 clients; every complete execution's history is checked by brute force for a linearization against a sequential registry model", "identity of an address is observed by a call through it"),
+ "C08": ("all schedules (lock acquisitions are scheduling points; in the short histories the holder of the registry lock is additionally suspended once while holding it) of registry histories of 1-3 clients, on two builds of the harness (release semantics; debug assertions on, where hannibal pings a freshly spawned service); every complete execution's history is checked by brute force for a linearization against a sequential registry model; a scene in which a service looks up another service from started() checks that every registry operation returns", "identity of an address is observed by a call through it"),
  "C12": ("all schedules of 1-3 senders (waiting and forcing paths, interval_with, a concurrent stop) on mailboxes U/B0..B2; the backpressure bound is evaluated at every log position of every execution", ""),
  "C03": ("all schedules of 1-2 client programs over send/call/stop (three entry points)/restart/drop/feed/close on plain actors (three strategies, mailbox U/B1, start failure, an interval tick queued) and stream-attached actors (four spawn paths, four stream shapes); the callback word of every execution is run through the started/handle*/[finished]/stopped automaton", ""),
  "C05": ("all schedules (deviation-bounded for the larger timer scenes) of handle-manipulation scripts of 1-2 clients plus a weak observer, with interval / slow interval_with / delayed_exec / broker subscription active; strong handles are tracked on the harness side and the alive-while-strong, last-drop-drains-and-terminates and upgrade clauses are evaluated on every execution", ""),
  "C06": ("every single fault of the alphabet (start error/panic, handler panic, stopped panic, timeout failure, cancellation before the j-th poll) applied to actor A in sub-scenes (pending/later operations, awaiters+owner, bystander, children, timers, registry; all schedules) and in the full scene (deviation-bounded); containment clauses on every execution", ""),
- "C09": ("all schedules of single-client broker programs and deviation-bounded schedules of 2-3 client programs over subscribe (client- and context-side), re-subscribe, unsubscribe, publish (three ways), drop/stop of subscribers on 1-2 topics; exactly-once, must/must-not deliver, common order and keep-alive clauses on every execution", ""),
+ "C09": ("all schedules of single-client broker programs and deviation-bounded schedules of 2-3 client programs over subscribe (client- and context-side), re-subscribe, unsubscribe, publish (three ways), drop/stop of subscribers on 1-2 topics; exactly-once, must/must-not deliver, common order and keep-alive clauses on every execution; explored on two builds (release semantics, debug assertions on) with the holder of the registry lock suspended once while holding it", ""),
  "C10": ("timer configurations (four kinds x periods 1-3, registered in started() or a handler, one or two timers) x termination (stop/drop/panic/timeout failure/never) at virtual times 0-6 x mailbox U/B0/B1 x instant/slow handlers, in discrete-event time (exact clauses) and with timer expiry racing runnable tasks (one-sided clauses); all schedules, task census at the end", ""),
  "C11": ("timeouts 1/2/5 x message sequences of length 1-3 with durations {0,t-1,t,t+1,2t} x fail_on_timeout x mailbox U/B1 x two client layouts, plus the no-timeout configuration; all schedules including the select! tie-break; completion / abandonment / exact abandonment time / state-intact clauses", ""),
  "C13": ("streams (empty, finite ready, fed in bursts then closed or left open, never ready) x spawn path x 0-2 client ops (send/call/stop/ctx-stop/drop) x instant/yielding handlers; all schedules and all outcomes of the loop's select! tie-break; item order/once/no-loss, handler-never-abandoned, finished-then-stopped and termination clauses", ""),
  "C16": ("actor trees of 2-3 nodes (depth up to 2, children under two broadcast types or add_child, some also held outside) x every parent termination cause (incl. cancellation before the j-th poll) x 0-2 broadcasts; all schedules for two-node trees, deviation-bounded for larger ones", ""),
- "C14": ("all schedules of termination cause x awaiting pattern x observer kind; stopped()/running() answers compared with the termination step on every execution", ""),
+ "C14": ("all schedules of termination cause x awaiting pattern x observer kind (and of the registry operations that depend on the answers), on two builds (release semantics, debug assertions on); stopped()/running() answers compared with the termination step on every execution", ""),
  "C15": ("every non-empty subset of {Addr, OwningAddr, Sender, Caller} as the only surviving strong handles, built through three conversion paths, with self-stop, self-restart, interval, delayed_send and every weak upgrade probed; all schedules", ""),
  "C17": ("all schedules of owner scripts (join, repeated and concurrent joins, consume, consume_sync, detach, to_addr+drop, late variants) against submitters, a stopper and failure causes; join-after-termination, final-state, handed-out-once clauses on every execution", ""),
- "C18": ("the same family (23 spawn entry points x 7 timing-independent client programs) is explored with all schedules on three builds of the harness - tokio_runtime, async_runtime, smol_runtime, each spawner running unchanged on its shim; per execution the spawned actor must answer a call issued after the spawn expression returned, per program the set of outcomes over all schedules must be identical on the three builds; the shims are bound to the real runtimes by a conformance suite run on real tokio (current-thread and multi-thread), async-std and smol", "the three runtimes are represented by their shims (conformance-tested against the real ones on every run)"),
+ "C18": ("the same family (23 spawn entry points x 13 timing-independent client programs) is explored with all schedules on three builds of the harness - tokio_runtime, async_runtime, smol_runtime, each spawner running unchanged on its shim; per execution the spawned actor must answer a call issued after the spawn expression returned, per program the set of outcomes over all schedules must be identical on the three builds; the shims are bound to the real runtimes by a conformance suite run on real tokio (current-thread and multi-thread), async-std and smol", "the three runtimes are represented by their shims (conformance-tested against the real ones on every run)"),
 }
 
 REASON_PENDING = "check not built yet in this round (planned, DESIGN.md section 3); not claimed until it runs"
@@ -48,7 +48,7 @@ m = {
  }],
  "checks": [],
  "not_applicable": [],
- "notes": "exit 0 = held on everything explored; exit 1 + VIOLATION line = violation not listed in known_findings.json; exit 2 = machinery problem (never a verdict). VERIF_WALL_S overrides the wall budget, VERIF_SEED permutes the case order.",
+ "notes": "exit 0 = held on everything explored; exit 1 + VIOLATION line = violation not listed in known_findings.json; exit 2 = machinery problem (never a verdict). VERIF_WALL_S overrides the wall budget, VERIF_SEED permutes the case order. Most families are additionally explored under neutral re-configurations of every harness actor (a handler timeout nobody comes near, a bounded mailbox that never fills, recreate-from-default, the stream event loop) with the same oracle - DESIGN.md section 3.0.",
 }
 for p in props:
     pid = p['id']
